@@ -1,6 +1,5 @@
 """C23 — each coordination window is triggered exactly once, in order."""
 META = {
-    "disabled": True,
     "level": "model_checking",
     "text": "TLC exhaustively checks the window-watcher model over all block streams (repeats, gaps, regressions, block 0, values around "
             "multiples of the frequency) with asynchronous callback goroutines and cancellation: started windows are positive multiples of "
@@ -44,6 +43,8 @@ def run(ctx):
             ctx.broken("harness report %s missing" % name)
     if go.reports["streams"]["evaluations"] < len(streams) and not ctx.violations:
         ctx.broken("only %d of %d streams were replayed" % (go.reports["streams"]["evaluations"], len(streams)))
+    if (go.reports["trace"].get("counters") or {}).get("skipped") and not ctx.violations:
+        ctx.broken("the trace test was skipped although no divergence was reported")
     tp = ctx.trace_path(go, "trace_watcher")
     ok, tr = ctx.validate_trace(SPEC, "Trace_WindowWatcher", tp, cfg="Trace_WindowWatcher", label="Trace_WindowWatcher",
                                 timeout=ctx.pick(600, 1800))
